@@ -6,7 +6,7 @@
 From Coq Require Import List String Ascii Bool Arith ZArith.
 From Helm Require Import Common.Assoc Common.Strs Values.Tree Values.Coalesce
   Misc.Panics Misc.PanicsStorage Misc.PanicsDeps Misc.PanicsIndex Misc.PanicsSort Misc.PanicsSchema
-  Misc.PanicsStrvalsLex Misc.PanicsStrvals Gen.C20Tables.
+  Misc.PanicsStrvalsLex Misc.PanicsStrvals Misc.PanicsRec Misc.PanicsGate Gen.C20Tables.
 Import ListNotations.
 Local Open Scope string_scope.
 
@@ -401,6 +401,38 @@ Definition strvals_run (m : pmode) (input : string) : cls :=
   | Fatal => CPanic
   end.
 
+(* ---------- include / tpl / template programs ---------- *)
+(* [rep] nested calls of one kind around the body; a tpl node with [vary] hands tpl a different
+   text at every level (the flag means nothing for include and template) *)
+Inductive rprog := RCall (k : kind) (n : string) (vary : bool) (rep : nat) (body : list rprog).
+
+Fixpoint rexpand (p : rprog) : list call :=
+  match p with
+  | RCall k n vary rep body =>
+      nest k (fun i => if vary && kind_eqb k KTpl then n ++ "#" ++ nat_str i else n) rep
+           ((fix go (l : list rprog) : list call :=
+               match l with [] => [] | x :: t => (rexpand x ++ go t)%list end) body)
+  end.
+
+(* observed: ok with the number of calls entered, or err *)
+Definition rec_run (prog : list rprog) (defined : list string) : cls * Z :=
+  match run_calls engine_cfg (fun n => mem_str n defined) (flat_map rexpand prog) rinit 0%Z with
+  | Some (_, n) => (COk, n)
+  | None => (CErr, 0%Z)
+  end.
+
+Definition rec_eqb (a b : cls * Z) : bool := cls_eqb (fst a) (fst b) && Z.eqb (snd a) (snd b).
+
+(* ---------- chart directories: which files LoadDir reads ---------- *)
+Definition dir_run (nodes : list node) : cls * list string :=
+  match walk_nodes gate_not_regular "" nodes with
+  | Some names => (COk, str_sort names)
+  | None => (CErr, [])
+  end.
+
+Definition dir_eqb (a b : cls * list string) : bool :=
+  cls_eqb (fst a) (fst b) && list_eqb String.eqb (snd a) (snd b).
+
 (* ---------- cases ---------- *)
 Inductive case :=
 | CStorage (st : list (sobj (option srel))) (ops : list sop) (obs : list sobs)
@@ -410,6 +442,8 @@ Inductive case :=
 | CManifest (fs : list mfile) (obs : mobs)
 | CSchema (direct : bool) (c : schart sch) (cc : Coalesce.chart) (v : vmap) (obs : cls)
 | CStrvals (m : pmode) (input : string) (obs : cls)
+| CRec (prog : list rprog) (defined : list string) (obs : cls * Z)
+| CDir (nodes : list node) (obs : cls * list string)
 | CExplore (obs : cls).          (* raw / mutated input on the real code only: nothing to compare,
                                     the runtime oracle judges it *)
 
@@ -421,6 +455,8 @@ Definition case_ok (c : case) : bool :=
   | CManifest fs obs => mobs_eqb (man_run fs) obs
   | CSchema direct c cc v obs => cls_eqb (schema_run direct c cc v) obs
   | CStrvals m input obs => cls_eqb (strvals_run m input) obs
+  | CRec prog defined obs => rec_eqb (rec_run prog defined) obs
+  | CDir nodes obs => dir_eqb (dir_run nodes) obs
   | CExplore _ => true
   end.
 
